@@ -24,6 +24,25 @@ def _mkscratch():
     return tempfile.mkdtemp(prefix="verif-", dir=base)
 
 
+_POOL_TIMEOUT_S = 3600    # a dead worker must not hang the driver for ever
+
+
+def _safe(fn):
+    """Pool workers must only raise picklable exceptions (a ConductorError with keyword-only
+    constructor arguments cannot be unpickled in the parent and would hang the pool)."""
+    import functools
+    import traceback
+
+    @functools.wraps(fn)
+    def wrapper(job):
+        try:
+            return fn(job)
+        except BaseException:
+            raise RuntimeError("harness worker %s crashed on job %r:\n%s"
+                               % (fn.__name__, job, traceback.format_exc())) from None
+    return wrapper
+
+
 # --------------------------------------------------------------------------- accumulator
 def _size(inp):
     text = json.dumps(inp, default=str, sort_keys=True)
@@ -172,6 +191,7 @@ def _quick_assignments(n_keys, canon):
     return sorted(seen)
 
 
+@_safe
 def _validator_worker(job):
     type_name, mode, fixed = job
     from conductor.task_types import raw_task_types
@@ -620,6 +640,8 @@ ELEMENTS = [
                                                         "parallelizable": False}),
     ("ExperimentInstance(name='bad name', options={'o': 'v'})", {"name": "bad name", "args": [], "options": {"o": "v"},
                                                                  "parallelizable": False}),
+    ("ExperimentInstance(name='e3', options={'o': 'v'})", {"name": "e3", "args": [], "options": {"o": "v"},
+                                                           "parallelizable": False}),
     ("('e9', [], {}, False)", None),
     ("'e9'", None),
 ]
@@ -654,6 +676,7 @@ def _expansion_source(elems, chain, deps):
     return "\n".join(lines) + "\n"
 
 
+@_safe
 def _group_worker(job):
     shard, n_shards, max_len = job
     from conductor.parsing.task_loader import TaskLoader
@@ -695,7 +718,6 @@ def _group_worker(job):
 
                     g_kind, g_val = parse("grp", src_group)
                     a.ev += 1
-                    names = [spec["name"] for _, spec in elems if spec is not None]
                     if all_instances and k >= 2:
                         a.nt += 1
                         a.sample(inp)
@@ -728,13 +750,13 @@ def _group_worker(job):
                                            if g_val[nm].get(key) != e_val[nm].get(key)})
                             cls = "different-" + "-".join(keys)
                         a.fail("same_raw_tasks", cls, inp, e_val, g_val)
-                    _ = names
     finally:
         shutil.rmtree(scratch, ignore_errors=True)
     return a
 
 
 # --------------------------------------------------------------------------- driver
+@_safe
 def _misc_worker(job):
     kind, tier = job
     t0 = time.time()
@@ -767,8 +789,8 @@ def run(tier, seed):
             depth = min(2, max(0, n_keys - 1))
             for fixed in itertools.product(range(n_states), repeat=depth):
                 vjobs.append((type_name, "full", fixed))
-    max_len = 3
-    n_group_shards = 32
+    max_len = 3 if quick else 4
+    n_group_shards = 32 if quick else 64
     gjobs = [(i, n_group_shards, max_len) for i in range(n_group_shards)]
 
     val, grp = Acc(), Acc()
@@ -776,15 +798,18 @@ def run(tier, seed):
     with mp.Pool(processes=n_proc) as pool:
         t0 = time.time()
         misc_job = pool.map_async(_misc_worker, [(k, tier) for k in ("parse", "load", "from_raw", "combine")], chunksize=1)
-        grp_job = pool.map_async(_group_worker, gjobs, chunksize=1)
-        val_job = pool.map_async(_validator_worker, vjobs, chunksize=1)
-        for acc in val_job.get():
+        done = {}
+        grp_job = pool.map_async(_group_worker, gjobs, chunksize=1,
+                                 callback=lambda _r: done.setdefault("grp", time.time() - t0))
+        val_job = pool.map_async(_validator_worker, vjobs, chunksize=1,
+                                 callback=lambda _r: done.setdefault("val", time.time() - t0))
+        for acc in val_job.get(_POOL_TIMEOUT_S):
             val.merge(acc)
-        wall_val = time.time() - t0
-        for acc in grp_job.get():
+        for acc in grp_job.get(_POOL_TIMEOUT_S):
             grp.merge(acc)
-        wall_grp = time.time() - t0
-        for kind, acc, wall in misc_job.get():
+        wall_val = done.get("val", time.time() - t0)
+        wall_grp = done.get("grp", time.time() - t0)
+        for kind, acc, wall in misc_job.get(_POOL_TIMEOUT_S):
             misc[kind] = (acc, wall)
 
     type_names = list(raw_task_types.keys())
@@ -833,7 +858,7 @@ def run(tier, seed):
                                 misc["parse"][1]),
         grp.result("C19.group.expansion_equivalence", "C19",
                    "task_types/stdlib/run_experiment_group.py::run_experiment_group (through TaskLoader.parse_cond_file)",
-                   "all experiment lists of length 0..%d over %d element kinds (default instance, instance with "
+                   "all experiment lists of length 0..%d over %d element kinds (default instance, two instances with "
                    "args/options/parallelizable, duplicate name, name equal to the group's, ill-typed args, invalid "
                    "name, plain tuple, string) x chain_experiments {omitted, False, True} x deps {omitted, None, [], "
                    "[':x'], ['//a/b:y', ':x']}; compared with the explicit expansion parsed by the same loader"
